@@ -16,7 +16,7 @@ MANIFEST = {
                   "ctts elst saiz saio sbgp prft tenc frma vmhd smhd nmhd sthd mfro mehd tfra pssh url avcC btrt pasp colr clap schm cslg senc(raw) emsg elng kind hvcC subs esds(ES_Descriptor, DecoderConfig with nested descriptors, DecSpecificInfo, SLConfig, raw descriptors, UnknownData, size fields of any width) "
                   "and the field prefixes of stsd, dref, VisualSampleEntry (avc1 avc3 hvc1 hev1 encv av01 vp08 vp09) and AudioSampleEntry "
                   "(mp4a enca ac-3 ec-3), everything the decoder accepts is reproduced from the decoded value plus the captured bytes "
-                  "(C01_leaf_lossless_*, C01_leaf_table, C01_pre_table); C01_tree: every slice accepted by the model of DecodeBoxSR "
+                  "(C01_leaf_lossless_stage1..3 = one conjunct per kind, C01_leaf_table, C01_pre_table); C01_tree: every slice accepted by the model of DecodeBoxSR "
                   "(pure containers moov trak mdia minf stbl moof traf mvex dinf edts udta sinf schi mfra tref, prefixed containers, unknown "
                   "boxes, the leaves above, any nesting) whose tree is exact re-encodes bit for bit; C01_file_tree: the same for a "
                   "concatenation of top-level boxes (box loop of DecodeFileSR, File.Encode in box-tree mode); C01_why_complete / "
@@ -161,7 +161,7 @@ def reclassify(ctx, model, fails):
     for this very input (why_box; C01_explained proves that an input without a reason is reproduced bit for bit).
     An accepted, not reproduced input for which the model has no reason is reported as such (never absorbed)."""
     ask = [(i, f) for i, f in enumerate(fails)
-           if f[2].startswith("mutant-not-reproduced:") and len(f) > 6 and f[5] == "M1" and f[6] != "-"]
+           if f[2].startswith("mutant-not-reproduced:") and len(f) > 6 and f[5] in ("M1", "M2") and f[6] != "-"]
     if not ask:
         return
     res = common.run_model(model, "".join("W\t%d\t%s\n" % (i, f[6]) for i, f in ask))
@@ -185,6 +185,10 @@ def reclassify(ctx, model, fails):
             else:
                 f[2] = ("reader-path-only:" if reader else "unexplained-by-model:") + f[2].split(":", 1)[1]
                 unexplained += 1
+        elif a == "rej" and f[5] == "M2":
+            # the model was asked about the failing box taken out of its context and rejects it there (its decoder read
+            # beyond the box, e.g. an esds whose size field overlaps the next box): no verdict, the class stays
+            unexplained += 1
         elif a == "rej" and reader:
             # the SliceReader path (the model's) rejects this input, the io.Reader path accepts it
             f[1], f[2] = "leaf-decoders", "reader-path-accepts-what-sr-rejects"
